@@ -482,9 +482,11 @@ impl Piece {
                 }
             }
             Piece::Sets { s1, s2, op, rel, rhs } => {
-                let f = |v: &Vec<u8>| format!("[{}]", v.iter().map(|x| x.to_string()).collect::<Vec<_>>().join(", "));
-                d.wheres.push(format!("let s{k} = {}", f(s1)));
-                d.wheres.push(format!("let t{k} = {}", f(s2)));
+                // op / 3: which of the two arrays is written with decimal points (4.0 for 4): the set
+                // functions compare by value, whatever the numeric kind of the elements
+                let f = |v: &Vec<u8>, dec: bool| format!("[{}]", v.iter().map(|x| if dec { format!("{x}.0") } else { x.to_string() }).collect::<Vec<_>>().join(", "));
+                d.wheres.push(format!("let s{k} = {}", f(s1, op / 3 == 2 || op / 3 == 3)));
+                d.wheres.push(format!("let t{k} = {}", f(s2, op / 3 == 1 || op / 3 == 3)));
                 let (name, items): (&str, Vec<u8>) = match op % 3 {
                     0 => {
                         let mut r: Vec<u8> = vec![];
@@ -578,7 +580,7 @@ pub fn piece() -> BoxedStrategy<Piece> {
         2 => (arr(false), any::<bool>(), rel(), rhs()).prop_map(|(arr, inclusive, rel, rhs)| Piece::Triangular { arr, inclusive, rel, rhs }),
         2 => (proptest::collection::vec(0u8..6, 1..=4), rel()).prop_map(|(idx, rel)| Piece::Subscript { idx, rel }),
         1 => (proptest::collection::vec(0u8..6, 1..=3), rel()).prop_map(|(items, rel)| Piece::Strings { items, rel }),
-        2 => (proptest::collection::vec(0u8..10, 0..=4), proptest::collection::vec(0u8..10, 0..=4), 0u8..3, rel(), rhs()).prop_map(|(mut s1, mut s2, op, rel, rhs)| {
+        2 => (proptest::collection::vec(0u8..10, 0..=4), proptest::collection::vec(0u8..10, 0..=4), prop_oneof![3 => 0u8..3, 2 => 3u8..12], rel(), rhs()).prop_map(|(mut s1, mut s2, op, rel, rhs)| {
             s1.dedup();
             s2.dedup();
             Piece::Sets { s1, s2, op, rel, rhs }
